@@ -3,7 +3,7 @@ from __future__ import annotations
 
 from ..env import Env, compile_fn
 from ..kernel import shard_map
-from ..progs import all_target_programs, chain_sources, expr_programs, skeleton_sources, source_shapes
+from ..progs import all_target_programs, boolchain_programs, chain_sources, expr_programs, skeleton_sources, source_shapes
 from ..runner import Acc
 from ..srcpipe import compare_functions, roundtrip
 from ..sweep import rotate
@@ -19,7 +19,9 @@ def programs(tier: str):
         out += list(expr_programs(1, 3))
         out += list(expr_programs(2, 3))
         out += list(chain_sources(3, "marked"))
+        out += list(boolchain_programs(5, 4))
     else:
+        out += list(boolchain_programs(6, 5))
         out += list(chain_sources(3, "marked")) + list(chain_sources(3, "bare")) + list(chain_sources(4, "marked"))
         out += list(skeleton_sources(3, "marked", loop_else_upto=2))
         out += list(skeleton_sources(3, "bare", loop_else_upto=2))
@@ -78,7 +80,7 @@ def _work(args):
     chunk, horizon = args
     acc = Acc()
     for label, src in chunk:
-        check_program(label, src, acc, horizon, raising=label.startswith("T/") or label.startswith("X"))
+        check_program(label, src, acc, horizon, raising=label.startswith("T/") or (label.startswith("X") and not label.startswith("XC")))
     return acc
 
 
